@@ -89,8 +89,10 @@ def violation_for(src, on, ref, ctrl, extra_kw=None):
     # the premise is evaluated on what the structural transforms leave: a trigger that only occurred inside a removed annotation / assert /
     # debug block no longer exists in the output, so nothing can look names up dynamically there
     try:
-        ab = scopes.analyse(ast.parse(base))
-        still = 'import *' in base or any(s.name in ('exec', 'eval', 'locals', 'globals', 'vars') and s.binding[0] == 'builtin' for s in ab.sites)
+        tb = ast.parse(base)
+        ab = scopes.analyse(tb)
+        star_still = any(isinstance(n, ast.ImportFrom) and any(al.name == '*' for al in n.names) for n in ast.walk(tb))
+        still = star_still or any(s.name in ('exec', 'eval', 'locals', 'globals', 'vars') and s.binding[0] == 'builtin' for s in ab.sites)
     except SyntaxError:
         still = True
     if not still:
